@@ -33,6 +33,12 @@ type ruleCase struct {
 	Probes   []ruleProbe
 	Format   string // expected published format for well-known string rules
 	Required bool
+	// OneWay: rules outside the property's "supported" list (element, key and value rules): the
+	// document may be laxer than the rules, but a value the rules accept must still validate
+	OneWay bool
+	// SkipZero: the zero value is exempt from the rules (ignore = IGNORE_IF_ZERO_VALUE), which plain
+	// schema keywords cannot express: zero-valued probes are not judged
+	SkipZero bool
 }
 
 func scalarProbe(class string, v protoreflect.Value) ruleProbe {
@@ -552,6 +558,56 @@ func ruleCatalogue() []ruleCase {
 	out = append(out, ruleCase{ID: "rules/required/int32/true", Kind: spec.Int32, Rules: &validate.FieldRules{Required: proto.Bool(true)}, Required: true})
 	out = append(out, ruleCase{ID: "rules/required/string/false-with-other-rule", Kind: spec.String, Rules: &validate.FieldRules{Type: &validate.FieldRules_String_{String_: &validate.StringRules{MinLen: proto.Uint64(1)}}}})
 	out = append(out, ruleCase{ID: "rules/required/message-optional/true", Kind: spec.String, Card: spec.Optional, Rules: &validate.FieldRules{Required: proto.Bool(true)}, Required: true})
+	// ---- the ignore option ----
+	// IGNORE_IF_ZERO_VALUE on a field without presence exempts only the zero value: every other value
+	// is judged by the same rules, and `required` stays in force. IGNORE_ALWAYS switches the rules and
+	// `required` off: nothing may be published for the field.
+	n := len(out)
+	for i := 0; i < n; i++ {
+		rc := out[i]
+		if rc.Card == spec.Optional || rc.Format != "" || rc.Number64 {
+			continue
+		}
+		pick := strings.HasPrefix(rc.ID, "rules/string-") || strings.HasPrefix(rc.ID, "rules/repeated-") || strings.HasPrefix(rc.ID, "rules/map-") || strings.HasPrefix(rc.ID, "rules/required/") ||
+			((strings.HasPrefix(rc.ID, "rules/numeric-gte+lte/") || strings.HasPrefix(rc.ID, "rules/numeric-gt/") || strings.HasPrefix(rc.ID, "rules/numeric-lte/") || strings.HasPrefix(rc.ID, "rules/numeric-const/")) && strings.HasSuffix(rc.ID, "bound=small"))
+		if !pick {
+			continue
+		}
+		z := rc
+		z.ID = rc.ID + "/ignore=if-zero"
+		z.Rules = proto.Clone(rc.Rules).(*validate.FieldRules)
+		z.Rules.Ignore = validate.Ignore_IGNORE_IF_ZERO_VALUE.Enum()
+		z.SkipZero = true
+		out = append(out, z)
+		a := rc
+		a.ID = rc.ID + "/ignore=always"
+		a.Rules = proto.Clone(rc.Rules).(*validate.FieldRules)
+		a.Rules.Ignore = validate.Ignore_IGNORE_ALWAYS.Enum()
+		a.Required = false
+		out = append(out, a)
+	}
+	// ---- element, key and value rules (one-way: a value the rules accept must validate) ----
+	items := func(id string, kind spec.T, item *validate.FieldRules, probes ...ruleProbe) {
+		out = append(out, ruleCase{ID: "rules/" + id, Kind: kind, Card: spec.Repeated, OneWay: true, Probes: probes,
+			Rules: &validate.FieldRules{Type: &validate.FieldRules_Repeated{Repeated: &validate.RepeatedRules{Items: item}}}})
+	}
+	strItem := func(r *validate.StringRules) *validate.FieldRules {
+		return &validate.FieldRules{Type: &validate.FieldRules_String_{String_: r}}
+	}
+	items("repeated-items-in/string/three", spec.String, strItem(&validate.StringRules{In: []string{"admin", "editor", "viewer"}}), listProbe("members", "admin", "viewer"), listProbe("one", "editor"), listProbe("n0"), listProbe("outsider", "admin", "root"))
+	items("repeated-items-const/string/fixed", spec.String, strItem(&validate.StringRules{Const: proto.String("x")}), listProbe("members", "x", "x"), listProbe("n0"), listProbe("other", "y"))
+	items("repeated-items-pattern+max_len/string/lower", spec.String, strItem(&validate.StringRules{Pattern: proto.String("^[a-z]+$"), MaxLen: proto.Uint64(4)}), listProbe("ok", "ab", "abcd"), listProbe("long", "abcde"), listProbe("upper", "AB"))
+	items("repeated-items-min_len/string/len=2", spec.String, strItem(&validate.StringRules{MinLen: proto.Uint64(2)}), listProbe("ok", "ab", "abc"), listProbe("short", "a"))
+	out = append(out, ruleCase{ID: "rules/repeated-items-in+max_items/string/two", Kind: spec.String, Card: spec.Repeated, OneWay: true,
+		Rules:  &validate.FieldRules{Type: &validate.FieldRules_Repeated{Repeated: &validate.RepeatedRules{MaxItems: proto.Uint64(2), Items: strItem(&validate.StringRules{In: []string{"a", "b"}})}}},
+		Probes: []ruleProbe{listProbe("ok", "a", "b"), listProbe("n0"), listProbe("too-many", "a", "b", "a")}})
+	mapKV := func(id string, keys, values *validate.FieldRules, probes ...ruleProbe) {
+		out = append(out, ruleCase{ID: "rules/" + id, Kind: spec.String, Card: spec.Map, OneWay: true, Probes: probes,
+			Rules: &validate.FieldRules{Type: &validate.FieldRules_Map{Map: &validate.MapRules{Keys: keys, Values: values}}}})
+	}
+	mapKV("map-values-in/string/one", nil, strItem(&validate.StringRules{In: []string{"v"}}), mapProbe("n0", 0), mapProbe("n2", 2))
+	mapKV("map-keys-pattern/string/k", strItem(&validate.StringRules{Pattern: proto.String("^k[0-9]+$")}), nil, mapProbe("n0", 0), mapProbe("n3", 3))
+	mapKV("map-keys+values/string/len", strItem(&validate.StringRules{MaxLen: proto.Uint64(3)}), strItem(&validate.StringRules{MinLen: proto.Uint64(1)}), mapProbe("n0", 0), mapProbe("n2", 2))
 	return out
 }
 
@@ -709,7 +765,13 @@ func c19(c *Ctx) {
 				for _, p := range rc.Probes {
 					m := dynamicpb.NewMessage(md)
 					p.Set(m, fd)
+					if rc.SkipZero && !m.Has(fd) {
+						continue
+					}
 					accepts := v.Validate(m) == nil
+					if rc.OneWay && !accepts {
+						continue
+					}
 					var inst any
 					switch {
 					case fd.IsList():
